@@ -144,6 +144,8 @@ def run(ctx: Ctx, rep: Report) -> None:
     rep.rule("C20-R2", "no decoded integer reaches range(), a repetition count or an allocation size unchecked", floor=1)
     rep.rule("C20-R3", "processing a datagram writes nothing to shared state except the lazily built security model", floor=3)
     rep.rule("C20-R4", "no eager recursion on the decode path", floor=1)
+    rep.rule("C20-R5", "a lazily decoded SEQUENCE is walked once: no indexing / len() / .value of it inside a loop (each access re-decodes the whole value: quadratic time in the datagram size)", floor=1)
+    rep.rule("C20-R6", "a failed exchange leaves no per-datagram state behind: every store to shared state in the package is a justified, operation-independent instance (shared with C14-R1)", floor=12)
     rep.assumptions += [
         "CPython: len() >= 0, int.from_bytes(.., signed=False) >= 0, bytes.find() >= -1, slicing never reads outside the object",
         "time and memory as a concrete multiple of the datagram size are not quantified; only absence of unbounded loops / allocations is decided",
@@ -282,6 +284,35 @@ def run(ctx: Ctx, rep: Report) -> None:
             allowed = allowed or (fn.cls is not None and fn.cls.name == "Loader" and st.path == "self.discovered_plugins")
             rep.check(allowed, "C20-R3", fn.site(st.node), f"`{norm(st.node)[:60]}` on the decode path leaves the client usable (operation-independent lazy construction only)", f"store to {st.owner}-owned `{st.path}` while processing a datagram", key=f"{fn.key}|decode-store|{st.path}")
     rep.ok("C20-R3", roots[0].site() if roots else "-", "decode paths were scanned for stores to shared state", f"{len(reach)} functions reachable from the three message-processing decode entry points")
+
+    # ------------------------------------------------------------ R5
+    redecode = []
+    scanned_fns = 0
+    for fn in list(reach.values()) + [f for f in ctx.u.functions.values() if f.module.name in ("puresnmp.pdu", "puresnmp.adt") and f.key not in reach and f.name not in ("pretty", "__repr__")]:
+        scanned_fns += 1
+        lazy = lazy_sequences(ctx, fn)
+        for loop in [n for n in own_nodes(fn.node) if isinstance(n, (ast.For, ast.While, ast.AsyncFor))]:
+            assigned_in_loop = {t.id for s in ast.walk(ast.Module(body=loop.body, type_ignores=[])) if isinstance(s, ast.Assign) for tg in s.targets for t in ast.walk(tg) if isinstance(t, ast.Name)}
+            for sub in ast.walk(ast.Module(body=loop.body, type_ignores=[])):
+                name = None
+                if isinstance(sub, ast.Subscript) and isinstance(sub.value, ast.Name) and not isinstance(sub.slice, ast.Constant):
+                    name = sub.value.id
+                elif isinstance(sub, ast.Call) and isinstance(sub.func, ast.Name) and sub.func.id == "len" and sub.args and isinstance(sub.args[0], ast.Name):
+                    name = sub.args[0].id
+                elif isinstance(sub, ast.Attribute) and sub.attr == "value" and isinstance(sub.value, ast.Name):
+                    name = sub.value.id
+                if name and name in lazy and name not in assigned_in_loop:
+                    redecode.append((fn, sub, name))
+            # len(x) in the loop header of `for i in range(len(x))` is evaluated once; x[i] in the body is what matters
+    rep.analysed["functions_scanned_for_redecoding"] = scanned_fns
+    rep.check(not redecode, "C20-R5", "puresnmp decode path", "no lazily decoded x690 SEQUENCE is indexed, measured or re-read inside a loop", "; ".join(f"{f.site(n)}: `{norm(n)}` re-decodes `{nm}` on every iteration" for f, n, nm in redecode[:3]), key="redecode|" + "|".join(sorted({f.key for f, _, _ in redecode}))[:100])
+
+    # ------------------------------------------------------------ R6
+    from . import c14
+
+    sub = Report(rep.prop, rep.tier)
+    c14.run(ctx, sub)
+    rep.adopt_rules(sub, "C20-R6", ["C14-R1"])
 
     # ------------------------------------------------------------ R4
     cyc = []
@@ -438,4 +469,26 @@ def tainted_sinks(ctx: Optional[Ctx], fn: FuncInfo) -> List[Tuple[ast.AST, str]]
             for seq, cnt in ((n.left, n.right), (n.right, n.left)):
                 if isinstance(seq, (ast.List, ast.Constant, ast.Tuple)) and (not isinstance(seq, ast.Constant) or isinstance(seq.value, (bytes, str))) and is_tainted_int(cnt):
                     out.append((n, f"`{norm(n)[:50]}`: repetition count taken from a decoded value"))
+    return out
+
+
+def lazy_sequences(ctx: Ctx, fn: FuncInfo) -> Set[str]:
+    """Names bound to a lazily decoded x690 Sequence: results of decode(.., enforce_type=Sequence), Sequence-annotated parameters, subscripts of those."""
+    out: Set[str] = set()
+    seq = ctx.u.classes.get("x690.types:Sequence")
+    for name in fn.params:
+        ann = ctx.r._param_annotation(fn, name)  # pylint: disable=protected-access
+        cls = ctx.r.resolve_class(fn.module, ann) if ann is not None else None
+        if cls is not None and seq is not None and ctx.r.is_subclass(cls, seq):
+            out.add(name)
+    for n in own_nodes(fn.node):
+        if isinstance(n, ast.Assign) and isinstance(n.value, ast.Call) and norm(n.value.func).split(".")[-1] == "decode":
+            enforce = [kw for kw in n.value.keywords if kw.arg == "enforce_type"]
+            is_seq = (enforce and norm(enforce[0].value) == "Sequence") or norm(n.value.func).startswith("Sequence.")
+            tgt = n.targets[0]
+            if is_seq:
+                if isinstance(tgt, ast.Tuple) and tgt.elts and isinstance(tgt.elts[0], ast.Name):
+                    out.add(tgt.elts[0].id)
+                elif isinstance(tgt, ast.Name):
+                    out.add(tgt.id)
     return out
